@@ -35,6 +35,16 @@ from harness import core
 FAKES = core.ROOT / "harness" / "fakes"
 
 
+def workers(cap=16):
+    """Number of parallel workers: the free cores, at least 2.  On an overloaded machine more
+    processes make the replay slower, not faster (measured: negative scaling at load > 3x cores)."""
+    try:
+        free = (os.cpu_count() or 4) - os.getloadavg()[0]
+    except OSError:
+        free = cap
+    return int(max(2, min(cap, free)))
+
+
 # --------------------------------------------------------------------------- TLC
 def _fmt(v):
     if isinstance(v, bool):
@@ -67,7 +77,7 @@ def tlc_cases(ctx, module, name, constants, nshards=1, timeout=1500):
     if nshards == 1:
         rs = [one(0)]
     else:
-        with ThreadPoolExecutor(max_workers=min(nshards, 12)) as ex:
+        with ThreadPoolExecutor(max_workers=min(nshards, 12, workers())) as ex:
             rs = list(ex.map(one, range(nshards)))
     cases = []
     for r in rs:
@@ -76,6 +86,23 @@ def tlc_cases(ctx, module, name, constants, nshards=1, timeout=1500):
             raise core.MachineryError(f"{module}: printed {len(cs)} cases for {r.distinct} states")
         cases.extend(cs)
     return cases
+
+
+def isolate_hash_cache(ctx):
+    """Point pydra's persistent file-hash cache (documented variable PYDRA_HASH_CACHE) at the
+    scratch directory: every Submitter call scans that directory (PersistentCache.clean_up),
+    and the per-user default grows with every run of every check on this machine."""
+    d = ctx.scratch / "hashcache"
+    d.mkdir(exist_ok=True)
+    os.environ["PYDRA_HASH_CACHE"] = str(d)
+    # import everything the replay needs before the worker pool forks
+    import fileformats.generic  # noqa
+    import pydra.compose.shell  # noqa
+    import pydra.engine.submitter  # noqa
+    import pydra.environments.docker  # noqa
+    import pydra.environments.lmod  # noqa
+    import pydra.environments.native  # noqa
+    import pydra.environments.singularity  # noqa
 
 
 # ----------------------------------------------------------------- source modules
@@ -182,9 +209,11 @@ def c27_parse(cmd, case, open_dirs):
     exp = case["prefix"]
     nrt = len(exp["rt"])
     image = exp["image"]
-    if image not in cmd[nrt:]:
+    # the image argument: NAME or NAME:TAG (how the tag is written is outside the statement)
+    idx = [k for k in range(nrt, len(cmd)) if cmd[k] == image or cmd[k].startswith(image + ":")]
+    if not idx:
         return {"unparsed": cmd}
-    i = cmd.index(image, nrt)
+    i = idx[0]
     opts, argv = cmd[nrt:i], cmd[i + 1:]
     xa = set(case["c"]["xargs"])
     bflags, wflags = set(case["bflags"]), set(case["wflags"])
@@ -213,7 +242,7 @@ def c27_parse(cmd, case, open_dirs):
     dup = len(binds) - len({tuple(b) for b in binds})
     prefix = {"rt": cmd[:nrt], "xargs": extra, "binds": sorted([list(b) for b in {tuple(b) for b in binds}]),
               "wd": [g for g in groups if g[0] == "W"], "image": image}
-    return {"prefix": prefix, "argv": argv, "dup_binds": dup}
+    return {"prefix": prefix, "argv": argv, "dup_binds": dup, "image_token": cmd[i]}
 
 
 def norm_prefix(p):
@@ -293,7 +322,10 @@ def c27_verdicts(case, obs):
     """Compare an observation with the TLC-computed references.  Returns a list of
     dicts(part, ok, what, expected, observed, known_id, asbuilt, note)."""
     exp_prefix = norm_prefix(case["prefix"])
-    ab_prefix = norm_prefix(case["bsplit"]["prefix"])
+    bs = case["bsplit"]
+    if bs.get("same"):  # no blank anywhere: the as-built reference equals the design (spec theorem)
+        bs = {"prefix": case["prefix"], "argv": case["argv"], "native": case["native"]}
+    ab_prefix = norm_prefix(bs["prefix"])
     if "err" in obs or "unparsed" in obs:
         ideal = {"prefix": exp_prefix, "argv": case["argv"]}
         o = {"err": obs["err"]} if "err" in obs else {"unparsed": obs["unparsed"]}
@@ -311,9 +343,9 @@ def c27_verdicts(case, obs):
     note = None
     if obs["argv"] == case["argv"]:
         ok = True
-    elif case["blanka"] and obs["argv"] == case["bsplit"]["argv"] and nat == case["bsplit"]["native"]:
+    elif case["blanka"] and obs["argv"] == bs["argv"] and nat == bs["native"]:
         ok, note = True, "argv re-split at blanks exactly as the native argv is (C23 subject)"
-    elif nat != case["native"] and not (case["blanka"] and nat == case["bsplit"]["native"]):
+    elif nat != case["native"] and not (case["blanka"] and nat == bs["native"]):
         ok, note = True, "native argv differs from the C27 reference family (C22/C23 subject): argv not judged"
     else:
         ok = False
@@ -360,9 +392,24 @@ def lmod_setup(scratch):
     return mh
 
 
-def lmod_run(args):
-    """Run one C39 case: native (baseline) and Lmod environment, real subprocesses."""
-    case, scratch, mh = args
+def lmod_key(case):
+    return json.dumps([case["caller"], case["av"]], sort_keys=True)
+
+
+def lmod_groups(cases):
+    groups = {}
+    for c in cases:
+        groups.setdefault(lmod_key(c), []).append(c)
+    out = []
+    for g in groups.values():          # keep work items small: the pool balances better
+        out.extend(g[i:i + 6] for i in range(0, len(g), 6))
+    return out
+
+
+def lmod_run_group(args):
+    """Run C39 cases sharing the caller environment and the argv variant: one native baseline
+    run, then one Lmod run per case; real subprocesses.  Returns [(case, obs)]."""
+    cases, scratch, mh = args
     from fileformats.generic import File
     from pydra.environments import lmod, native
 
@@ -370,19 +417,19 @@ def lmod_run(args):
     saved = {k: os.environ.get(k) for k in TRACKED + _CTRL}
     try:
         mod = load_source(lmod_source(), scratch)
+        first = cases[0]
         for k in TRACKED + _CTRL:
             os.environ.pop(k, None)
-        for k, v in as_map(case["caller"]).items():
+        for k, v in as_map(first["caller"]).items():
             if k != "AMBIENT":
                 os.environ[k] = codes_str(v)
-        (tmp / "case.json").write_text(json.dumps({"script": case["script"]}))
         os.environ["MODULESHOME"] = str(mh)
         os.environ["FAKE_LMOD_CASE"] = str(tmp / "case.json")
         os.environ["FAKE_LMOD_LOG"] = str(tmp / "lmod.log")
         infile = tmp / "in.txt"
         infile.write_text("x")
-        cls = mod.DumpCopy if case["av"] % 2 == 1 else mod.DumpAny
-        xval = "val" if case["av"] // 2 == 1 else None
+        cls = mod.DumpCopy if first["av"] % 2 == 1 else mod.DumpAny
+        xval = "val" if first["av"] // 2 == 1 else None
         exe = str(FAKES / "dumpenv")
 
         def run(env, tag):
@@ -401,11 +448,17 @@ def lmod_run(args):
                     str(cache_root / jobs[0] / "in.txt"): "JOB/in.txt"}
             return {"argv": [subs.get(t, t) for t in d["argv"]], "env": d["env"], "caller": caller}
 
+        (tmp / "case.json").write_text(json.dumps({"script": []}))
         nat = run(native.Native(), "n")
-        mods = [codes_str(m) for m in case["mods"]]
-        lm = run(lmod.Lmod(modules=mods), "l")
-        log = (tmp / "lmod.log").read_text() if (tmp / "lmod.log").exists() else ""
-        return lmod_project(case, nat, lm, log)
+        out = []
+        for k, case in enumerate(cases):
+            (tmp / "case.json").write_text(json.dumps({"script": case["script"]}))
+            (tmp / "lmod.log").write_text("")
+            mods = [codes_str(m) for m in case["mods"]]
+            lm = run(lmod.Lmod(modules=mods), f"l{k}")
+            log = (tmp / "lmod.log").read_text()
+            out.append((case, lmod_project(case, nat, lm, log)))
+        return out
     finally:
         for k, v in saved.items():
             if v is None:
@@ -464,7 +517,7 @@ def lmod_verdicts(case, obs):
     note = None
     if obs["argv"] == case["argv"]:
         ok = True
-    elif nat is not None and nat != case["argv"] and obs["argv"] == nat:
+    elif nat is not None and nat != case["native"] and obs["argv"] == nat:
         ok, note = True, "native argv differs from the C39 reference family; Lmod argv equals the native one"
     else:
         ok = False
